@@ -197,7 +197,7 @@ Inductive cstep : coord -> coord -> Prop :=
       c_cl_runner c = Some a -> c_cleanups c = h :: rest ->
       cstep c (c_with_ran (c_with_lists c rest (c_callbacks c)) (c_ran_cleanups c ++ [h]) (c_ran_callbacks c))
   | cs_cl_end c a :
-      c_cl_runner c = Some a -> ann_phase a (c_announcers c) = Some 1 ->
+      c_cl_runner c = Some a -> ann_phase a (c_announcers c) = Some 1 -> c_cleanups c = [] ->
       cstep c (c_with_ann (c_with_runners (c_with_lists c [] (c_callbacks c)) None (c_cb_runner c))
                           (c_owing c) (ann_set a 2 (c_announcers c)))
   | cs_event c a p :
